@@ -27,6 +27,7 @@
 (*    holds          >= 1 slot, MaxSearch = GenMod-1          no error     *)
 (*    zero-slot      Sizes contains 0                         NoCrash      *)
 (*    overflow       Checked, MaxSearch unbounded             NoCrash      *)
+(*                   (only while the code panics on the overflow)          *)
 (*    aliasing       ~Checked, MaxSearch = GenMod+1           PVHolds      *)
 (*    only-aliasing  as aliasing, PVHoldsUpToAliasing         no error     *)
 (* The configuration file next to this module is `holds`.                  *)
